@@ -300,7 +300,7 @@ pub fn run(tier: Tier, args: &[String]) -> i32 {
             min_frontier: 400,
             record: false,
             garbage: false,
-            menu: None,
+            menu: Some(crate::app::main_menu()),
         };
         let v = V {
             rep: &rep,
@@ -323,7 +323,7 @@ pub fn run(tier: Tier, args: &[String]) -> i32 {
                 min_frontier: 400,
             record: false,
             garbage: false,
-            menu: None,
+            menu: Some(crate::app::main_menu()),
             },
         };
         let st = explore::run(&cfg, &v, 4);
